@@ -343,13 +343,18 @@ impl Cx {
 
     pub async fn publish_op(&self, topic: &str, msgs: &[Msg]) -> (u64, Result<Vec<String>, Status>) {
         let mut c = self.publisher();
+        let forward: Vec<String> = std::mem::take(&mut *self.w.forward_ids.lock().unwrap());
         let req = pb::PublishRequest {
             topic: topic.into(),
             messages: msgs
                 .iter()
-                .map(|m| pb::PubsubMessage {
+                .enumerate()
+                .map(|(i, m)| pb::PubsubMessage {
                     data: m.data.clone(),
                     attributes: m.attrs.clone(),
+                    // output-only fields a forwarding client leaves filled in: the server ignores them
+                    message_id: forward.get(i).cloned().unwrap_or_default(),
+                    publish_time: if forward.get(i).is_some() { Some(prost_types::Timestamp { seconds: 1, nanos: 1 }) } else { None },
                     ..Default::default()
                 })
                 .collect(),
